@@ -78,12 +78,6 @@ class Check:
         out = []
         for sig in sorted(self.findings):
             f = self.findings[sig]
-            if sig in known_open:
-                known_seen += 1
-                out.append("KNOWN-FINDING: property=%s %s -- %s (%d occurrence(s) in this run)" %
-                           (self.pid, sig, known_open[sig]["summary"], f["count"]))
-                continue
-            violations += 1
             os.makedirs(REPLAY_DIR, exist_ok=True)
             path = os.path.join(REPLAY_DIR, "%s-%s.json" % (self.pid, slug(sig)))
             art = dict(property=self.pid, signature=sig, text=f["text"], occurrences=f["count"])
@@ -93,6 +87,12 @@ class Check:
                 art["replay"] = f["replay"]
             with open(path, "w") as fp:
                 json.dump(art, fp, indent=1)
+            if sig in known_open:
+                known_seen += 1
+                out.append("KNOWN-FINDING: property=%s %s -- %s (%d occurrence(s) in this run; replay=%s)" %
+                           (self.pid, sig, known_open[sig]["summary"], f["count"], path))
+                continue
+            violations += 1
             out.append("VIOLATION property=%s replay=%s" % (self.pid, path))
             out.append("  signature: %s" % sig)
             out.append("  %s" % f["text"].replace("\n", "\n  "))
